@@ -1,4 +1,4 @@
 SPECIFICATION Spec
-CONSTANTS BudgetSnap = 4  BudgetRebuild = 256  BudgetCompose = 64
+CONSTANTS BudgetSnap = 4  BudgetRebuild = 256  BudgetCompose = 64  BudgetMap = 8
 POSTCONDITION Accepted
 CHECK_DEADLOCK FALSE
